@@ -83,9 +83,9 @@ def check(ctx):
             f"TractList.{meth}: yields one record per tract, in order",
             detail_bad=f"{meth} changed", key=f"TBL|TractList.{meth}")
 
-    _scrubbers(ctx)
-    _writers(ctx)
-    _headers(ctx)
+    ctx.attempt(_scrubbers)
+    ctx.attempt(_writers)
+    ctx.attempt(_headers)
 
 
 def _join_sites(fi):
